@@ -41,7 +41,7 @@ def run(ctx):
     for _ in range(n):
         fmt = rnd.choice(["delimited", "delimited", "fixed"])
         fields = engine.gen_fields(rnd, rnd.randint(1, 5), fmt)
-        scn = {"format": fmt, "allowed": None, "fields": fields, "checks": engine.gen_checks(rnd, fields), "header": rnd.choice([0, 0, 1, 2]),
+        scn = {"format": fmt, "line": rnd.choice(["lf", "cr", "crlf", "any", "none"]), "allowed": None, "fields": fields, "checks": engine.gen_checks(rnd, fields), "header": rnd.choice([0, 0, 1, 2]),
                "runs": [{"kind": "R", "api": "c", "mode": "yield", "limit": None, "rows": engine.gen_table(rnd, fields, fmt, rnd.randint(0, 8), p_bad=0.15)}]}
         scns.append(scn)
     for scn, mruns, iruns in engine.run_scenarios(scns):
